@@ -12,6 +12,7 @@ RULE = ("op histories (candidate list, cap) against prior_combinations_sample wi
         "per history; 70% one stable duplicate-free list with changing caps, 30% changing lists incl. duplicates; "
         "non-trivial = some cap strictly between 0 and the number of candidates; distinct = distinct canonical histories")
 THEOREMS = ["C07_step_valid", "C07_checker_sound", "C07_subset", "C07_exact", "C07_least_first", "C07_fair",
+            "C07_fair_interleaved", "C07_shared_counter_refuted",
             "C07_counts_are_selections", "C07_model_fair", "C07_checked_history_fair"]
 NAMES = ["a", "b", "f1", "f2", "label", "x AND y", "u", "v9", "é", "", "0", "1", "f AND_REL g"]
 
@@ -87,7 +88,17 @@ def gen_pipe_case(rng):
     caps = [rng.randint(0, ncand_max + 2) for _ in range(rng.randint(1, 8))]
     case = {"columns": names, "label": label, "heuristic": mode, "target_only": target_only, "caps": caps,
             "nrows": 12, "seed": rng.randint(0, 10 ** 6)}
-    if rng.random() < 0.25:
+    if rng.random() < 0.3 and "reference" not in case:
+        # interaction features are built (and sampled, on their own storage since fix 45d13a2) before the pairs
+        # are sampled, exactly as compute_batch_ranking does; the cap is chosen to bind on the pairs
+        case["interaction_order"] = 2
+        case["heuristic"] = rng.choice(["MI-numba-3mr", "max-value-coverage", "Constant"])
+        nf = len(names) - 1
+        lo = nf * (nf - 1) // 2
+        case["caps"] = [rng.randint(max(1, lo), lo + nf + 1) for _ in range(rng.randint(3, 8))]
+        if rng.random() < 0.5:
+            case["caps"] = [case["caps"][0]] * len(case["caps"])
+    elif rng.random() < 0.25:
         # prior heuristic with a reference model (rarely used configuration): some columns are reference-model features
         case["heuristic"] = rng.choice(["surrogate-SGD", "surrogate-SVM", "surrogate-SGD-RP"])
         others = [n for n in names if n != label and " AND_REL " not in n]
